@@ -11,7 +11,7 @@ RULE = (
     "caller with 1..3 calls whose actual arguments are plain variables, tuple elements of bool AND integer type, nested elements, "
     "repeated or swapped variables, boolean expressions (for bool formals), with call results used in arithmetic / comparisons / "
     "if-expressions; caller names are drawn from a pool containing the callee's formal names, '<callee>_<formal>' and the callee name "
-    "prefix (in 60% of the cases the variable feeding formal j is deliberately called like another formal, plain or '<callee>_'-prefixed); delivery by defs=[...], by an inline def, or through oraclize(g, value). The caller's expression list is evaluated on ALL "
+    "prefix, tuple literals built from those for tuple-typed formals (in 60% of the cases the variable feeding formal j is deliberately called like another formal, plain or '<callee>_'-prefixed); delivery by defs=[...], by an inline def, or through oraclize(g, value). The caller's expression list is evaluated on ALL "
     "argument assignments against the reference with the callee applied to the actual values; free symbols and any change of the "
     "callee's fingerprint are violations. Non-trivial = a call whose argument is an element, repeat, swap or name clash and the caller "
     "result is not constant; distinct by canonical JSON of the case"
@@ -19,7 +19,7 @@ RULE = (
 ASSUMPTIONS = [
     "actual and formal types match exactly (type-mismatched calls are undocumented and not generated)",
     "reference semantics of vlib/refsem.py; a call result is coerced to the callee's declared return type",
-    "calls the library rejects with an exception are counted, not failed",
+    "calls the library rejects with an exception are counted, not failed - except that a caller rejected with a tuple-literal argument and accepted once that literal is bound to a local variable first is a violation (the property quantifies over argument shapes)",
 ]
 
 
@@ -47,7 +47,12 @@ def case(draw):  # noqa: C901
     callees = []
     cnames = ["g", "h"]
     for i in range(ncal):
-        cal = draw(gen_prog.program(callee_cfg(), name=cnames[i]))
+        ccfg = callee_cfg()
+        if draw(st.integers(0, 9)) < 3:
+            # nested tuple formals with multi-bit leaves: Tuple[Qint[2], Tuple[bool, Qint[2]]]
+            ccfg.type_depth = 2
+            ccfg.max_in_bits = 6
+        cal = draw(gen_prog.program(ccfg, name=cnames[i]))
         # rename formals to a small pool so that clashes with caller names are possible
         callees.append(cal)
     fns = {c["name"]: ([a[1] for a in c["args"]], c["ret"]) for c in callees}
@@ -148,6 +153,57 @@ def interesting_calls(caller, callees):
     return n
 
 
+def has_literal_arg(prog):
+    found = False
+
+    def walk(x):
+        nonlocal found
+        if isinstance(x, list) and x:
+            if x[0] == "call" and any(a[0] in ("tup", "lst") for a in x[2]):
+                found = True
+            for y in x:
+                walk(y)
+
+    walk(prog["body"])
+    return found
+
+
+def hoisted_variant(prog, fn_keys):
+    """the program with the tuple-literal arguments of calls in its top-level (non if / for) statements bound to fresh
+    local variables first; None if there is no such argument"""
+    import copy
+
+    body = []
+    n = 0
+
+    def repl(x):
+        nonlocal n
+        if isinstance(x, list) and x:
+            if x[0] == "call":
+                newargs = []
+                for a in x[2]:
+                    a = repl(a)
+                    if a[0] in ("tup", "lst"):
+                        nm = "lit%d" % n
+                        n += 1
+                        pre.append(["assign", nm, a])
+                        a = ["v", nm]
+                    newargs.append(a)
+                return ["call", x[1], newargs]
+            return [repl(y) for y in x]
+        return x
+
+    for s in copy.deepcopy(prog["body"]):
+        pre = []
+        if s[0] in ("assign", "return", "aug"):
+            s = s[:-1] + [repl(s[-1])]
+        body.extend(pre)
+        body.append(s)
+    if n == 0:
+        return None
+    return dict(prog, body=body)
+
+
 def judge(case):  # noqa: C901
     callees, caller = case["callees"], case["caller"]
     feats = ["delivery:" + case["delivery"], "opt:" + case["opt"], "callees:%d" % len(callees)]
@@ -213,10 +269,30 @@ def judge(case):  # noqa: C901
             except progeval.Timeout:
                 raise
             except Exception as e:
-                return {"status": "rejected", "nontrivial": False, "features": feats + ["rejected:" + progeval.rejection_key(e)]}
+                rej = {"status": "rejected", "nontrivial": False, "features": feats + ["rejected:" + progeval.rejection_key(e)]}
+                if case["delivery"] == "defs":
+                    hv = hoisted_variant(caller, set(fns_env))
+                    if hv is not None:
+                        # the same caller with every literal argument first bound to a local variable
+                        try:
+                            hsrc = gen_prog.render_lib(hv, fns_env)
+                            qlassf(hsrc, defs=cal_qf, to_compile=False, bool_optimizer=progeval.optimizer(case["opt"]))
+                        except progeval.Timeout:
+                            raise
+                        except Exception:
+                            return rej
+                        return {
+                            "status": "violation",
+                            "kind": "literal-argument-rejected",
+                            "detail": {"callees": cal_src, "caller": caller_src, "exc": repr(e)[:300], "accepted_with_variables": hsrc, "opt": case["opt"]},
+                            "features": feats,
+                        }
+                return rej
     except progeval.Timeout:
         return {"status": "skip", "nontrivial": False, "features": feats + ["timeout"]}
     detail0 = {"callees": cal_src, "caller": full_src, "opt": case["opt"]}
+    if has_literal_arg(caller):
+        feats.append("literal-argument")
 
     after = [fingerprint(q) for q in cal_qf]
     if before != after:
